@@ -360,6 +360,58 @@ def url_decode_rule(rep, u, fname="http_url_decode"):
     return n
 
 
+def base64_encode_rule(rep, u, fname="base64_encode", table="base64_tbl_coding"):
+    """base64_encode evaluated for every input length 0..7 (all three tail cases, with and without full groups) over three
+    byte patterns, with the byte that follows the input in memory set to 0x00 and to 0xff: the characters stored equal
+    the RFC 4648 encoding (python's base64 module as reference) and do not depend on the byte after the input."""
+    import base64 as b64
+    from rules import r_stride
+    fn = u.fn(fname)
+    if fn is None or not fn.has_cfg or table not in u.globals:
+        raise driver.AnalysisBroken("anchor %s / %s vanished" % (fname, table))
+    rep.functions.add(fname)
+    tbl = core.global_value(u, u.globals[table])
+    tbl = tbl["str"].encode() if isinstance(tbl, dict) and "str" in tbl else bytes(int(x) for x in tbl)
+    SRC, DST, TBL = 0x10000, 0x20000, 0x30000
+    pn = [p["n"] for p in fn.params]
+    bad = undec = None
+    n = 0
+    for ln in range(0, 8):
+        for pat in (0x65, 0xff, 0x01):
+            data = bytes(((pat + 37 * i) & 0xff) for i in range(ln))
+            want = b64.b64encode(data)
+            for after in (0x00, 0xff):
+                pe = r_stride.PE(u)
+                for i, b_ in enumerate(data):
+                    pe.memory[SRC + i] = b_
+                pe.memory[SRC + ln] = after
+                pe.memory[SRC + ln + 1] = after
+                for i, b_ in enumerate(tbl):
+                    pe.memory[TBL + i] = b_
+                ev, ret = pe.trace(fn, {pn[0]: SRC, pn[1]: ln, pn[2]: DST, pn[3]: 64, pn[4]: 0, table: TBL})
+                n += 1
+                if isinstance(ret, str) or ret != 0:
+                    undec = undec or "length %d: %s" % (ln, ret)
+                    continue
+                out = []
+                for e, b in ev:
+                    for x, ps in walk(e):
+                        if x.get("k") == "bin" and x["op"] == "=" and core.strip_casts(x["x"]).get("k") == "un" and core.strip_casts(x["x"]).get("op") == "*":
+                            try:
+                                out.append(r_mpt.eval_expr(x["y"], {}, pe._hook(b, {})) & 0xff)
+                            except (r_mpt.Unknown, KeyError, TypeError):
+                                out.append(-1)
+                if -1 in out:
+                    undec = undec or "length %d: a stored character is not computable" % ln
+                elif bytes(out[:len(want)]) != want:
+                    bad = bad or "input %s followed in memory by 0x%02x is encoded as %r instead of %r%s" % (
+                        data.hex(), after, bytes(out[:len(want)]).decode("latin1"), want.decode(),
+                        ": the byte after the input is read" if after else "")
+    desc = "%s produces the RFC 4648 text for inputs of 0..7 bytes, whatever follows the input in memory" % fname
+    (rep.violated if bad else rep.undecided if undec else rep.proved)("R-SPEC", fn, "base64-encode", desc, bad or undec or "%d cases" % n)
+    return n
+
+
 def run(rep, tier):
     hs = ["utils/base64.h", "utils/num2str.h", "utils/str2num.h", "utils/strh2num.h", "utils/utf8.h", "math/crc32.h"]
     srcs = ["src/utils/xml.c", "src/utils/buf_str.c", "src/proto/http.c"]
@@ -371,6 +423,7 @@ def run(rep, tier):
     neg_rule(rep, us["utils/num2str.h"])
     len_rule(rep, us["utils/utf8.h"], "utf8_decode")
     rep.floor("URL unescape byte cases", url_decode_rule(rep, us["src/proto/http.c"]), 500)
+    rep.floor("Base64 encoder cases", base64_encode_rule(rep, us["utils/base64.h"]), 48)
     # the hex codecs report what they wrote and zero what they did not: extent lints shared with C12
     from props import memsafe
     ub = us["src/utils/buf_str.c"]
